@@ -57,6 +57,56 @@ class Ctx:
         self.thorough = tier == "thorough"
         self.notes: list[str] = []
         self.drv = os.path.join(LEAN, ".lake", "build", "bin", "modeldrv")
+        self._watch = None          # (started, limit_s, input) of the call into the implementation that is running now
+        self._t0 = time.time()
+
+    def watch(self, inp, limit=120):
+        """with ctx.watch(input): <one call into the implementation>.  A call that does not come back (work without bound inside C code
+        cannot be interrupted by a signal handler) is reported by the watchdog thread as the failing input and the process exits 1."""
+        ctx = self
+
+        class _W:
+            def __enter__(self_w):
+                ctx._watch = (time.time(), limit, inp)
+
+            def __exit__(self_w, *exc):
+                ctx._watch = None
+                return False
+        return _W()
+
+    def start_watchdog(self):
+        import threading
+
+        def run():
+            while True:
+                time.sleep(2)
+                w = self._watch
+                if w and time.time() - w[0] > w[1]:
+                    self._emergency(w)
+
+        threading.Thread(target=run, daemon=True, name="watchdog").start()
+
+    def _emergency(self, w):
+        started, limit, inp = w
+        prop = self.prop
+        observed = f"the call into the implementation did not return within {limit} s (stopped by the watchdog)"
+        v = {"kind": "failing-input", "input": inp, "observed": observed, "expected": "an answer or the documented error, in bounded time"}
+        h = hashlib.sha1(canon(v).encode()).hexdigest()[:10]
+        rp = os.path.join("replays", f"{prop}-{h}.json")
+        os.makedirs(os.path.join(VERIF, "replays"), exist_ok=True)
+        os.makedirs(os.path.join(VERIF, "evidence"), exist_ok=True)
+        with open(os.path.join(VERIF, rp), "w") as fh:
+            json.dump({"property": prop, "tier": self.tier, "seed": self.seed, **v, "rerun": f"./check {prop} --replay {rp}"}, fh, indent=1, default=repr)
+        ev = {"property_id": prop, "tier": self.tier, "seed": self.seed, "level": "proof",
+              "coverage": {"obligations": 1, "discharged": 0, "checker_cmd": "(run stopped by the watchdog before the obligations were evaluated)", "trusted_base": TRUSTED_BASE,
+                           "evaluations": 1, "samples": [inp], "exhaustive": False, "explanation": observed, "not_discharged": [{"obligation": "correspond:watchdog", "detail": observed}]},
+              "assumptions": [], "wall_s": round(time.time() - self._t0, 2), "violations": 1}
+        with open(os.path.join(VERIF, "evidence", f"{prop}.json"), "w") as fh:
+            json.dump(ev, fh, indent=1, default=repr)
+        print(f"{prop} tier={self.tier} seed={self.seed}: stopped by the watchdog, 1 violation(s)")
+        print("broken: correspond:watchdog |", observed, "|", canon(inp)[:300])
+        print(f"VIOLATION property={prop} replay={rp}", flush=True)
+        os._exit(1)
 
     def model(self, lines: list[str], timeout: int = 3600, jobs: int = 0) -> list[str]:
         """run the compiled Lean model on protocol lines (the protocol is stateless per line, so big batches are
@@ -232,6 +282,7 @@ def main():
     seed = int(os.environ.get("VERIF_SEED", "0") or 0)
     t0 = time.time()
     ctx = Ctx(prop, tier, seed)
+    ctx.start_watchdog()
     mod = importlib.import_module(f"corr.{prop}")
 
     if a.replay:
